@@ -540,7 +540,12 @@ func (w *World) resolveHostPort(network, address string) ([]net.IP, string, int,
 		}
 	}
 	if ap, err := netip.ParseAddr(h); err == nil {
-		ip := net.IP(ap.AsSlice())
+		// like net.ParseIP: IPv4 literals come back in 16-byte form
+		ip := net.IP(ap.AsSlice()).To16()
+		if ap.Is6() && ap.IsUnspecified() && zone == "" && (network == "tcp" || network == "udp") {
+			// the real resolver lets "::" also stand for the IPv4 wildcard
+			return []net.IP{ip, net.IPv4zero}, zone, port, nil
+		}
 		return []net.IP{ip}, zone, port, nil
 	}
 	ips, err := w.lookup(host)
@@ -579,14 +584,17 @@ func ResolveTCPAddr(network, address string) (*net.TCPAddr, error) {
 	if len(ips) == 0 {
 		return nil, &net.AddrError{Err: "no suitable address found", Addr: address}
 	}
-	ip := pickFirst(ips)
+	ip := pickFirst(ips, address)
 	return &net.TCPAddr{IP: ip, Port: port, Zone: zone}, nil
 }
 
-// pickFirst mirrors net's "first IPv4 address, else first address" preference of Resolve*Addr.
-func pickFirst(ips []net.IP) net.IP {
+// pickFirst mirrors addrList.forResolve of package net: an address written as an IPv6
+// literal prefers the first non-IPv4 candidate, anything else the first IPv4 candidate.
+func pickFirst(ips []net.IP, address string) net.IP {
+	want6 := len(address) > 0 && address[0] == '['
 	for _, ip := range ips {
-		if ip != nil && ip.To4() != nil {
+		is4 := ip != nil && ip.To4() != nil
+		if is4 != want6 {
 			return ip
 		}
 	}
@@ -602,7 +610,7 @@ func ResolveUDPAddr(network, address string) (*net.UDPAddr, error) {
 	if len(ips) == 0 {
 		return nil, &net.AddrError{Err: "no suitable address found", Addr: address}
 	}
-	ip := pickFirst(ips)
+	ip := pickFirst(ips, address)
 	return &net.UDPAddr{IP: ip, Port: port, Zone: zone}, nil
 }
 
@@ -611,7 +619,7 @@ func ResolveIPAddr(network, address string) (*net.IPAddr, error) {
 	if err != nil {
 		return nil, err
 	}
-	return &net.IPAddr{IP: pickFirst(ips), Zone: zone}, nil
+	return &net.IPAddr{IP: pickFirst(ips, address), Zone: zone}, nil
 }
 
 func LookupIP(host string) ([]net.IP, error) { return W.lookup(host) }
